@@ -55,7 +55,7 @@ def freq : Nat := 100
 structure Corr where
   runeOffset : Nat
   byteOffset : Nat
-  deriving Repr, DecidableEq, BEq, Inhabited
+  deriving Repr, DecidableEq, Inhabited
 
 def makeRomAux : List Nat → Nat → Nat → List Corr
   | [], _, _ => []
